@@ -1,7 +1,7 @@
 (* C18 - Deck-style draws and count bookkeeping are exact.
    This file holds only the property theorems; proofs live in Proofs/DrawP.v. *)
 From Coq Require Import ZArith List.
-From Dyce Require Import Base.Sums Base.Order Base.Hist Base.QcOrd Model.Draw Proofs.DrawP Proofs.DrawLawsP.
+From Dyce Require Import Base.Sums Base.Order Base.Hist Base.QcOrd Model.Draw Model.Equality Proofs.DrawP Proofs.DrawLawsP.
 Import ListNotations.
 Open Scope Z_scope.
 
@@ -80,6 +80,12 @@ Theorem C18_draws_combined : forall {T} (O : ord T) h r1 r2 a, wf O h -> draws O
   exists c, draw O h (r1 ++ r2) = Ok c /\ (forall z, cnt O c z = cnt O a z) /\ total c = total a.
 Proof. exact @draws_combined. Qed.
 Print Assumptions C18_draws_combined.
+
+(* zero_fill never alters a distribution: its result is a well-formed histogram that is == (C05) to h *)
+Theorem C18_zero_fill_same_distribution : forall {T} (O : ord T) (h : hist T) outs, wf O h ->
+  wf O (zero_fill O h outs) /\ heq O (zero_fill O h outs) h = true.
+Proof. exact @zero_fill_heq. Qed.
+Print Assumptions C18_zero_fill_same_distribution.
 
 (* non-vacuity: a concrete deck, a successful and a failing draw *)
 Example C18_nonvacuous :
